@@ -198,7 +198,7 @@ def _long(args):
 
 def long_runs(n, seed):
     import multiprocessing as mp
-    with mp.get_context("fork").Pool(min(common.NCPU, n)) as pool:
+    with common.pool(min(common.NCPU, n)) as pool:
         return pool.map(_long, [(seed + i, 10**7 + i) for i in range(n)])
 
 
